@@ -117,8 +117,19 @@ def replay_single(table, sid, payload, first, clause):
     p = (s.offset - first) * 2 if kind == "modbus" else s.offset
     payload = bytes(payload)
     out = {}
+    if clause.startswith("C16_read_value_is_implemented"):
+        try:
+            s.read_value(make_response(bytes(16), "modbus", s.offset))
+        except NotImplementedError:
+            return {"violates": True, "detail": f"{type(s).__name__}.read_value raises NotImplementedError"}
+        except Exception:      # noqa
+            pass
+        return {"violates": False}
     if p < 0 or p + nbytes > len(payload):
-        return {"violates": False, "note": "outside window"}
+        # the witness block is cut off by the size cap of witnesses: rebuild a block that starts at the row
+        first = s.offset
+        p = 0
+        payload = (payload + bytes(64))[:max(nbytes, 16)]
     bulk_exc = single_exc = None
     bulk = single = None
     try:
